@@ -4,7 +4,8 @@ import vlib, e2e, lit_extract, lit_e2e
 from names_common import Oracle
 
 THEOREMS = ["C05_layer_roundtrip", "C05_atom_roundtrip", "C05_simple_roundtrip", "C05_swap_roundtrip", "C05_seed_roundtrip",
-            "C05_shuffle_roundtrip", "C05_split_roundtrip", "C05_wrap_roundtrip", "C05_array_roundtrip", "C05_consts"]
+            "C05_shuffle_roundtrip", "C05_split_roundtrip", "C05_wrap_roundtrip", "C05_array_roundtrip", "C05_consts",
+            "C05_linker_var_of_own_package", "C05_linker_var_of_other_package"]
 
 
 def grid(r, tier):
@@ -25,6 +26,50 @@ def grid(r, tier):
     return out
 
 
+
+def linkvars_correspondence(res, orc, r, tier):
+    """computeLinkerVariableStrings (which variables of the package being compiled -ldflags=-X sets, and to what) against
+    Model/LinkFlags.v linker_var_strings, on generated packages (main and not, dotted import paths) and flag lists."""
+    n = 50 if tier == "quick" else 400
+    cases, reqs = [], []
+    for _ in range(n):
+        path, name = r.choice([("example.com/corp2", "main"), ("example.com/dotted.name/pkg", "pkg"), ("v2.example.org/a.b/c.d", "d"), ("main", "main"), ("plain", "plain")])
+        vars_ = r.sample(["version", "Channel", "buildTag", "X", "other"], r.randint(1, 4))
+        src = "package %s\n\n%s\nfunc notAVar() {}\nconst aConst = \"c\"\ntype aType int\n" % (name, "\n".join('var %s = "default"' % v for v in vars_))
+        toks = []
+        for _ in range(r.randint(0, 5)):
+            p2 = r.choice([path, path, "main", "example.com/other", "example.com/dotted", "v2.example"])
+            nm = r.choice(["version", "Channel", "buildTag", "X", "other", "notAVar", "aConst", "missing"])
+            val = r.choice(["v1.2.3", "a=b", "", "1.0-debug", "x.y"])
+            full = "%s.%s=%s" % (p2, nm, val) if r.random() < 0.9 else "%s.%s" % (p2, nm)
+            toks += ["-X=" + full] if r.random() < 0.6 else ["-X", full]
+            if r.random() < 0.3:
+                toks.append(r.choice(["-s", "-w", "-extld=gcc"]))
+        reqs.append({"op": "linkvars", "s": src, "s2": path, "args": [" ".join(toks)]})
+        cases.append((path, name, vars_, toks, src))
+    outs = orc.batch(reqs)
+    lits, meta = [], []
+    sl = lambda xs: "[" + ";".join(vlib.nlist(x.encode()) for x in xs) + "]"
+    for (path, name, vars_, toks, src), o in zip(cases, outs):
+        if "vars" not in o:
+            res.violation("linkvars-fails", "computeLinkerVariableStrings fails for package %s with -ldflags=%r: %s" % (path, " ".join(toks), o), {"source": src, "ldflags": toks})
+            continue
+        got = sorted((o["vars"] or {}).items())
+        lits.append("(%s, %s, %s, %s, %s)" % (vlib.nlist(path.encode()), vlib.nlist(name.encode()), sl(vars_), sl(toks),
+                                              "[" + ";".join("(%s, %s)" % (vlib.nlist(k.encode()), vlib.nlist(v.encode())) for k, v in got) + "]"))
+        meta.append((path, toks, got))
+    header = ("From Verif Require Import Base.Bytes Model.Flags Model.LinkFlags.\nOpen Scope N_scope.\n"
+              "Definition sub (a b : list (str * str)) : bool := forallb (fun p => existsb (fun q => beq (fst p) (fst q) && beq (snd p) (snd q)) b) a.\n")
+    bad = vlib.coq_eval_cases("c05x", header, "str * str * list str * list str * list (str * str)", lits,
+                              "(fun c => match c with (path, name, vars, fl, got) => let m := linker_var_strings path name vars fl in negb (sub m got && sub got m) end)", chunk=25)
+    for i in bad[:3]:
+        path, toks, got = meta[i]
+        res.violation("linkvars-model", "for package %s and -ldflags=%r computeLinkerVariableStrings yields %r, Model/LinkFlags.v linker_var_strings differs "
+                      "(theorems C05_linker_var_of_own_package/_other_package describe the selection)" % (path, " ".join(toks), got), {"package": path, "ldflags": toks, "implementation": got})
+    res.cov["linkvars_cases"] = len(lits)
+    return len(lits)
+
+
 def run(res, tier, seed, replay):
     r = vlib.rng(seed)
     ok, msg = vlib.run_translators()
@@ -41,6 +86,7 @@ def run(res, tier, seed, replay):
         res.violation("oracle-build", "garble with the injected literals oracle no longer builds: %s" % str(e)[-800:], {"error": str(e)}, found_input=False)
         return
     orc = Oracle(garble)
+    lv_cases = linkvars_correspondence(res, orc, r, tier)
     datas = grid(r, tier)
     reqs, meta = [], []
     for d in datas:
@@ -101,7 +147,7 @@ def run(res, tier, seed, replay):
                               % (c["obf"], len(d), c["seed"], (got.get(str(n)) or "nothing")[:40]), {"obfuscator": c["obf"], "seed": c["seed"], "data": d.hex(), "block": c["block"]})
     except vlib.BuildError as e:
         res.violation("batch-compile", "the emitted blocks do not compile: %s" % str(e)[-600:], {"error": str(e)[-3000:]})
-    res.cov["evaluations"] = len(cases)
+    res.cov["evaluations"] = len(cases) + lv_cases
     res.cov["compiled_blocks"] = len(cases)
     res.cov["artefacts_decoded_in_coq"] = len(lits)
     # ---- real `garble -literals` build of the generated program
